@@ -124,6 +124,23 @@ def _move_all_closed(ev):
     """Candidates: an all_closed hook event moved to just before a conn_closed of its run that precedes it (whether the
     model notices depends on whether that connection was still open for it: several candidates are tried)."""
     out = []
+    # strongest candidates first: all_closed moved to right after the first `accepted` of its run, with that connection's
+    # conn_closed still to come - the model cannot have all connections closed there
+    for i, x in enumerate(ev):
+        if x.get('e') == 'hook' and x.get('ev') == 'all_closed':
+            j = i - 1
+            first_acc = None
+            while j >= 0 and ev[j].get('e') != 'reset':
+                if ev[j].get('e') == 'hook' and ev[j].get('ev') == 'accepted':
+                    first_acc = j
+                j -= 1
+            if first_acc is not None and any(e.get('e') == 'hook' and e.get('ev') == 'conn_closed' and e.get('n') == ev[first_acc].get('n') for e in ev[first_acc:i]):
+                c = list(ev)
+                y = c.pop(i)
+                c.insert(first_acc + 1, y)
+                out.append(c)
+        if len(out) >= 2:
+            break
     for i, x in enumerate(ev):
         if x.get('e') == 'hook' and x.get('ev') == 'all_closed':
             j = i - 1
